@@ -241,6 +241,7 @@ class Runner:
         self.scn = scn
         self.mode = mode
         self.opts = opts or {}
+        self.frozen = []   # (run id, values returned by get_value at an answer of a run that has ended, image when it ended)
         self.saved = {}    # run id -> [(values returned by get_value at an answer, their image at that time, to_python image)]
         self.qargs = {}    # run id -> the goal's argument terms as built (raw functors with variables inside)
         self.built = {}    # run id -> lists built with makelist from the query variables at earlier answers
@@ -327,6 +328,14 @@ class Runner:
     def check_saved(self, r):
         """C15: values saved at the answers must still denote the same (ground) terms now"""
         bad = []
+        for gv, ans, py in self.saved.get(r, [])[:8]:
+            # C13: the run has ended, so what it returned can only contain variables of this run or of
+            # finished uses of stored facts; nobody may bind those any more
+            if len(self.frozen) < 40:
+                try:
+                    self.frozen.append((r, gv, project_raw_tuple(gv)))
+                except (CyclicBinding, RecursionError):
+                    pass
         for gv, ans, py in self.saved.pop(r, []):
             for i, a in enumerate(ans):
                 if not is_ground_image(a):
@@ -338,6 +347,18 @@ class Runner:
                     pynow = {"exception": type(e).__name__}
                 if now != a or pynow != py[i]:
                     bad.append({"at_answer": a, "now": now, "py_at_answer": py[i], "py_now": pynow})
+        return bad
+
+    def check_frozen(self):
+        """values returned by runs that have ended must keep denoting the same terms whatever runs later"""
+        bad = []
+        for r, gv, img in self.frozen:
+            try:
+                now = project_raw_tuple(gv)
+            except (CyclicBinding, RecursionError):
+                now = "cyclic"
+            if now != img:
+                bad.append({"run": r, "when_the_run_ended": img, "now": now})
         return bad
 
     def close(self, r, how):
@@ -422,6 +443,11 @@ class Runner:
             t = op["term"]
             args = [build(yp, a, env) for a in t.get("a", [])]
             yp.assert_fact(yp.atom(t["n"]), args, op["atEnd"])
+            return {"k": "ok"}
+        if k == "assertn":
+            yp = self.yps[op["e"] - 1]
+            for i in range(op["lo"], op["lo"] + op["n"]):
+                yp.assert_fact(yp.atom(op["name"]), [int(str(i))], op["atEnd"])
             return {"k": "ok"}
         if k == "clear":
             self.yps[op["e"] - 1].clear()
